@@ -7,22 +7,16 @@ From HTA.model Require Import C03_Model C13_Model.
 From HTA.proof Require Import Scale C03_Scale.
 Open Scope Z_scope.
 
-Lemma leb_scale k a b : 0 < k -> (k * a <=? k * b) = (a <=? b).
-Proof. intro Hk. destruct (Z.leb_spec a b); destruct (Z.leb_spec (k * a) (k * b)); try reflexivity; nia. Qed.
 
 Lemma thread_of_scale k l e : thread_of (scale_evs k l) (scale_ev k e) = scale_evs k (thread_of l e).
 Proof. unfold thread_of, scale_evs. apply filter_map_comm. reflexivity. Qed.
 
-Lemma forallb_map_f {A B} (f : A -> B) (p : B -> bool) (l : list A) : forallb p (map f l) = forallb (fun x => p (f x)) l.
-Proof. induction l as [|x r IH]; cbn [map forallb]; [reflexivity|]. rewrite IH. reflexivity. Qed.
 
 Lemma is_cpu_thread_scale k l e : is_cpu_thread (scale_evs k l) (scale_ev k e) = is_cpu_thread l e.
 Proof.
   unfold is_cpu_thread. rewrite thread_of_scale. unfold scale_evs. rewrite forallb_map_f. reflexivity.
 Qed.
 
-Lemma existsb_map_f {A B} (f : A -> B) (p : B -> bool) (l : list A) : existsb p (map f l) = existsb (fun x => p (f x)) l.
-Proof. induction l as [|x r IH]; cbn [map existsb]; [reflexivity|]. rewrite IH. reflexivity. Qed.
 
 Lemma thread_heads_scale k seen l :
   thread_heads (scale_evs k seen) (scale_evs k l) = scale_evs k (thread_heads seen l).
@@ -48,8 +42,6 @@ Proof.
   apply flat_map_ext_eq. intro h. rewrite thread_of_scale. apply (C03_scale k (thread_of l h) Hk).
 Qed.
 
-Lemma existsb_ext_eq {A} (p q : A -> bool) (l : list A) : (forall x, p x = q x) -> existsb p l = existsb q l.
-Proof. intro H. induction l as [|x r IH]; cbn [existsb]; [reflexivity|]. rewrite H, IH. reflexivity. Qed.
 
 Lemma in_cpu_thread_scale k l i : in_cpu_thread (scale_evs k l) i = in_cpu_thread l i.
 Proof.
@@ -123,4 +115,48 @@ Qed.
 Theorem C13_parent_map_scale k l : 0 < k -> parent_map (scale_evs k l) = parent_map l.
 Proof.
   intro Hk. unfold parent_map. rewrite host_edges_scale, dev_edges_scale, attach_bwd_scale by exact Hk. reflexivity.
+Qed.
+
+(* ---------- kernel totals: count unchanged, summed duration and earliest start multiplied by k, latest end multiplied by k or
+   still the sentinel -1 ---------- *)
+Definition kinfo_rel (k : Z) (a a' : kinfo) : Prop :=
+  let '(c, s, f, e) := a in let '(c', s', f', e') := a' in
+  c' = c /\ s' = k * s /\ f' = k * f /\ (e' = k * e \/ (e = -1 /\ e' = -1)).
+
+Lemma k_none_rel k tmax : kinfo_rel k (k_none tmax) (k_none (k * tmax)).
+Proof. unfold kinfo_rel, k_none. repeat split; try ring. right. split; reflexivity. Qed.
+
+Lemma k_join_rel k a a' b b' : 0 < k -> kinfo_rel k a a' -> kinfo_rel k b b' -> kinfo_rel k (k_join a b) (k_join a' b').
+Proof.
+  intro Hk. destruct a as [[[c1 s1] f1] e1], a' as [[[c1' s1'] f1'] e1'], b as [[[c2 s2] f2] e2], b' as [[[c2' s2'] f2'] e2'].
+  unfold kinfo_rel, k_join. intros [Hc1 [Hs1 [Hf1 He1]]] [Hc2 [Hs2 [Hf2 He2]]]. subst c1' s1' f1' c2' s2' f2'.
+  split; [reflexivity|]. split; [ring|]. split; [apply min_scale; lia|].
+  destruct He1 as [He1|[He1 He1']]; destruct He2 as [He2|[He2 He2']]; subst.
+  - left. apply max_scale. lia.
+  - destruct (Z_le_gt_dec 0 e1) as [H|H].
+    + left. rewrite !Z.max_l by nia. reflexivity.
+    + right. split; apply Z.max_r; nia.
+  - destruct (Z_le_gt_dec 0 e2) as [H|H].
+    + left. rewrite !Z.max_r by nia. reflexivity.
+    + right. split; apply Z.max_l; nia.
+  - right. split; reflexivity.
+Qed.
+
+Lemma fold_join_rel k (g g' : Z -> kinfo) cs a a' : 0 < k ->
+  kinfo_rel k a a' -> (forall c, kinfo_rel k (g c) (g' c)) ->
+  kinfo_rel k (fold_left (fun acc c => k_join acc (g c)) cs a) (fold_left (fun acc c => k_join acc (g' c)) cs a').
+Proof.
+  intros Hk Ha Hg. revert a a' Ha. induction cs as [|c r IH]; intros a a' Ha; cbn [fold_left]; [exact Ha|].
+  apply IH. apply k_join_rel; [exact Hk | exact Ha | apply Hg].
+Qed.
+
+Theorem C13_kinfo_scale k fuel l devs m tmax i : 0 < k ->
+  kinfo_rel k (kinfo_of fuel l devs m tmax i) (kinfo_of fuel (scale_evs k l) devs m (k * tmax) i).
+Proof.
+  intro Hk. revert i. induction fuel as [|f IH]; intro i; cbn [kinfo_of]; [apply k_none_rel|].
+  destruct (is_dev_node devs i).
+  - rewrite (find_scale k (fun e => idx e =? i)) by reflexivity.
+    destruct (find (fun e => idx e =? i) l) as [e|]; cbn [option_map]; [|apply k_none_rel].
+    unfold kinfo_rel. rewrite eend_scale. repeat split; try reflexivity. left. reflexivity.
+  - apply fold_join_rel; [exact Hk | apply k_none_rel | exact IH].
 Qed.
